@@ -138,5 +138,6 @@ Ctor1(S, K) ==    \* one constructor applied to terms of S; K: terms usable as d
   \cup {<<"func", <<a, b>>, r>> : a \in S, b \in S, r \in S \cup {Unit}}
   \cup {<<"named", "Box", <<t>>>> : t \in S}
   \cup {<<"named", "dict.Dict", <<k, v>>>> : k \in K, v \in S}
+  \cup {<<"named", "Duo", <<a, b>>>> : a \in S, b \in S}          \* a user record with two type parameters
 Tuple3s(S) == {<<"tuple", <<a, b, c>>>> : a \in S, b \in S, c \in S}
 =============================================================================
